@@ -690,6 +690,9 @@ func c04Exec(line string) string {
 	if len(f) >= 2 && (f[0] == "t" || f[0] == "T") {
 		return c04TierExec(f) // the three-store chain (c04_tier.go)
 	}
+	if len(f) >= 2 && (f[0] == "g" || f[0] == "G") {
+		return c04GenExec(f) // random schemas over the schema-parametric model (c04_gen.go)
+	}
 	if len(f) < 2 || (f[0] != "h" && f[0] != "v" && f[0] != "k" && f[0] != "w") {
 		return "bad-case"
 	}
@@ -1688,4 +1691,5 @@ func c04Gen(tier string, seed uint64, out *bufio.Writer) {
 		c04GenHistory(r, out, !r.chance(1, 5))
 	}
 	c04GenTier(tier, r, out) // round 9: the three-store chain, after the older streams (their cases stay as they were)
+	c04GenG(tier, r, out)    // round 14: random schemas over the schema-parametric model, after everything else
 }
